@@ -233,3 +233,78 @@ _add(Cond('frame_init_shape_check', [('ni', 'int'), ('nc', 'int')], body_frame_s
         functions=['Frame.__init__'],
         bounds='2x3 TypeBlocks with index/columns of symbolic lengths 1..3 / 1..4 (an empty label list means "no labels given")',
         route='Frame(TypeBlocks, index, columns): exactly one row per index label and one column per column label, else ErrorInitFrame'))
+
+
+# ---------------------------------------------------------------- every layout at once: float cells with a symbolic missing pattern
+# One solver Boolean per cell (missing or not) and one per optional argument; each path then applies a LIST of Frame
+# operations to the same cells packed into EVERY block layout and compares each layout with the canonical one.
+
+def obs_frame(env, f):
+    sf = env.sf
+    if isinstance(f, sf.Frame):
+        return ['F', env.obs(f.index.values.tolist()), env.obs(f.columns.values.tolist()),
+                env.obs(f.values.tolist()) if f.shape[0] and f.shape[1] else [list(f.shape)], [dt.kind for dt in f._blocks._dtypes]]
+    if isinstance(f, sf.Series):
+        return ['S', env.obs(f.index.values.tolist()), env.obs(f.values.tolist()), f.values.dtype.kind]
+    return ['E', env.obs(f)]
+
+
+FRAME_OPS = [
+    ('fillna_leading_1', lambda f, xp: f.fillna_leading(-7, axis=1)), ('fillna_trailing_1', lambda f, xp: f.fillna_trailing(-7, axis=1)),
+    ('fillna_leading_0', lambda f, xp: f.fillna_leading(-7, axis=0)), ('fillna_trailing_0', lambda f, xp: f.fillna_trailing(-7, axis=0)),
+    ('fillna_forward_1', lambda f, xp: f.fillna_forward(axis=1)), ('fillna_backward_1', lambda f, xp: f.fillna_backward(axis=1)),
+    ('fillna_forward_0', lambda f, xp: f.fillna_forward(axis=0)), ('fillna', lambda f, xp: f.fillna(-7)),
+    ('isna', lambda f, xp: f.isna()), ('count_0', lambda f, xp: f.count(axis=0)), ('count_1', lambda f, xp: f.count(axis=1)),
+    ('dropna_any_1', lambda f, xp: f.dropna(axis=1, condition=xp.any)), ('dropna_all_0', lambda f, xp: f.dropna(axis=0, condition=xp.all)),
+    ('sum_0', lambda f, xp: f.sum(axis=0)), ('sum_1', lambda f, xp: f.sum(axis=1)), ('sum_0_noskip', lambda f, xp: f.sum(axis=0, skipna=False)),
+    ('min_1', lambda f, xp: f.min(axis=1)), ('max_0_noskip', lambda f, xp: f.max(axis=0, skipna=False)), ('prod_0', lambda f, xp: f.prod(axis=0)),
+    ('cumsum_1', lambda f, xp: f.cumsum(axis=1)), ('transpose', lambda f, xp: f.transpose()), ('shift', lambda f, xp: f.shift(0, 1)),
+    ('roll', lambda f, xp: f.roll(0, 1, include_columns=True)), ('astype_str', lambda f, xp: f.iloc[:, 1:].astype(object)),
+    ('eq_self', lambda f, xp: f == f), ('neg', lambda f, xp: -f), ('iloc_rev', lambda f, xp: f.iloc[::-1, ::-1]),
+    ('iter_array_1', lambda f, xp: tuple(a.tolist() for a in f.iter_array(axis=1))), ('to_pairs', lambda f, xp: f.to_pairs(0)),
+]
+
+
+OP_GROUPS = {'fills': FRAME_OPS[0:8], 'na': FRAME_OPS[8:13], 'reduce': FRAME_OPS[13:20], 'struct': FRAME_OPS[20:]}
+
+
+def mk_missing_all_layouts(nrows, ncols, group, tier='quick'):
+    lays = layouts.compositions(ncols)
+    FRAME_OPS = OP_GROUPS[group]     # noqa: N806  (shadows the full list inside this condition)
+
+    def body(env, **kw):
+        from vf import rt
+        flags = [[bool(kw[f'm{r}{c}']) for c in range(ncols)] for r in range(nrows)]
+
+        def run():
+            sf = env.sf
+            from static_frame.core.type_blocks import TypeBlocks
+            xp = env.xp
+            cols = [[(env.nan if flags[r][c] else 10 * (r + 1) + c) for r in range(nrows)] for c in range(ncols)]
+
+            def results(lay):
+                tb = TypeBlocks.from_blocks(layouts.build_blocks(env, cols, 'float64', lay))
+                f = sf.Frame(tb, index=[100 + r for r in range(nrows)], columns=[chr(97 + c) for c in range(ncols)], name='nm')
+                out = []
+                for name, fn in FRAME_OPS:
+                    try:
+                        r = fn(f, xp)
+                        out.append([name, obs_frame(env, r) if not isinstance(r, tuple) else env.obs(list(r))])
+                    except Exception as e:  # noqa: BLE001
+                        out.append([name, 'raises', type(e).__name__])
+                return out
+            can = results(canonical(ncols))
+            got = [results(lay) for lay in lays]
+            return got, [can] * len(lays)
+        return rt.untraced(run)
+    return Cond(f'frame_ops_all_layouts_{group}_{nrows}x{ncols}', [(f'm{r}{c}', 'bool') for r in range(nrows) for c in range(ncols)], body,
+            functions=['TypeBlocks._fillna_sided_axis_1', 'TypeBlocks.ufunc_axis_skipna'],
+            bounds=f'{nrows}x{ncols} float64 frame, every missing pattern (one symbolic Boolean per cell), concrete other cells; EVERY one of the {len(lays)} block layouts against the one-block-per-column layout; {len(FRAME_OPS)} Frame operations',
+            route='Frame operations (' + ', '.join(n for n, _ in FRAME_OPS) + '): values, labels, per-column dtype kinds and raised error class equal across all block layouts', tier=tier, timeout=400)
+
+
+for _g in OP_GROUPS:
+    _add(mk_missing_all_layouts(1, 4, _g))
+    _add(mk_missing_all_layouts(2, 3, _g))
+    _add(mk_missing_all_layouts(1, 5, _g, tier='thorough'))
+    _add(mk_missing_all_layouts(3, 3, _g, tier='thorough'))
